@@ -689,15 +689,15 @@ theorem render_root_or_parent (t : Tree) (ht : typedT t = true) (h : Hdr) (ex : 
 theorem typedT_facts (t : Tree) (h : typedT t = true) :
     (t.obj.type ≤ 13 ∨ t.ns.length = 0) ∧ (t.obj.type ≤ 13 ∨ t.obj.type = 15 ∨ t.ms.length = 0) ∧
     (t.obj.type ≤ 13 ∨ (16 ≤ t.obj.type ∧ t.obj.type ≤ 18) ∨ t.ios.length = 0) ∧
-    (t.obj.type ≠ 4 ∨ (t.ns.length = 0 ∧ t.ms.length = 0)) ∧ t.obj.type < 20 := by
+    True ∧ t.obj.type < 20 := by
   cases t with
   | node o ns ms ios mis =>
     rw [typedT] at h
     simp only [Bool.and_eq_true, Bool.or_eq_true, decide_eq_true_eq, List.isEmpty_iff, isNormal, isIO, tGROUP, tMEMCACHE, tBRIDGE,
       tPCI, tOSDEV, tPU, tMAX, beq_iff_eq, bne_iff_ne, ne_eq] at h
     simp only [Tree.obj, Tree.ns, Tree.ms, Tree.ios, List.length_eq_zero_iff]
-    obtain ⟨⟨⟨⟨⟨⟨⟨⟨a, b⟩, c⟩, d⟩, e⟩, _⟩, _⟩, _⟩, _⟩ := h
-    refine ⟨a.imp of_decide_eq_true id, ?_, ?_, ?_, of_decide_eq_true e⟩
+    obtain ⟨⟨⟨⟨⟨⟨⟨a, b⟩, c⟩, e⟩, _⟩, _⟩, _⟩, _⟩ := h
+    refine ⟨a.imp of_decide_eq_true id, ?_, ?_, trivial, of_decide_eq_true e⟩
     · rcases b with (b | b) | b
       · exact Or.inl (of_decide_eq_true b)
       · exact Or.inr (Or.inl b)
@@ -706,9 +706,6 @@ theorem typedT_facts (t : Tree) (h : typedT t = true) :
       · exact Or.inl (of_decide_eq_true c)
       · right; left; rcases c with (c | c) | c <;> omega
       · exact Or.inr (Or.inr c)
-    · rcases d with d | d
-      · exact Or.inl d
-      · exact Or.inr d
 
 theorem kkind_arith (q : Nat) (hq : q < 4) (ty : Nat) (h : kkind q ty = true) :
     (q = 0 ∧ ty ≤ 13) ∨ (q = 1 ∧ (ty = 14 ∨ ty = 15)) ∨ (q = 2 ∧ 16 ≤ ty ∧ ty ≤ 18) ∨ (q = 3 ∧ ty = 19) := by
@@ -734,16 +731,61 @@ theorem clause_no_children : objClause "no-children-where-forbidden" = fun _ _ o
       (if isMisc o.type then o.arity == 0 && o.marity == 0 && o.ioarity == 0 else true) := by
   simp only [objClause, objClauses, List.find?, String.reduceBEq]
 
-theorem render_no_children_where_forbidden (t : Tree) (ht : typedT t = true) (h : Hdr) (ex : RObj → Extra) (o : Obj)
-    (ho : o ∈ (render t h ex).objs) :
+/-- every occurrence of a tree whose PUs are leaves is a leaf if it is a PU -/
+theorem occs_puLeaf :
+    (∀ t, puLeafT t = true → ∀ s par rk pv nx, ∀ oc ∈ occsT s par rk pv nx t,
+        oc.t.obj.type ≠ 4 ∨ (oc.t.ns.length = 0 ∧ oc.t.ms.length = 0)) ∧
+    (∀ l, puLeafL l = true → ∀ s par rk pv, ∀ oc ∈ occsL s par rk pv l,
+        oc.t.obj.type ≠ 4 ∨ (oc.t.ns.length = 0 ∧ oc.t.ms.length = 0)) := by
+  have hnode : ∀ o ns ms ios mis,
+      (puLeafL ns = true → ∀ s par rk pv, ∀ oc ∈ occsL s par rk pv ns, oc.t.obj.type ≠ 4 ∨ (oc.t.ns.length = 0 ∧ oc.t.ms.length = 0)) →
+      (puLeafL ms = true → ∀ s par rk pv, ∀ oc ∈ occsL s par rk pv ms, oc.t.obj.type ≠ 4 ∨ (oc.t.ns.length = 0 ∧ oc.t.ms.length = 0)) →
+      (puLeafL ios = true → ∀ s par rk pv, ∀ oc ∈ occsL s par rk pv ios, oc.t.obj.type ≠ 4 ∨ (oc.t.ns.length = 0 ∧ oc.t.ms.length = 0)) →
+      (puLeafL mis = true → ∀ s par rk pv, ∀ oc ∈ occsL s par rk pv mis, oc.t.obj.type ≠ 4 ∨ (oc.t.ns.length = 0 ∧ oc.t.ms.length = 0)) →
+      (puLeafT (.node o ns ms ios mis) = true → ∀ s par rk pv nx, ∀ oc ∈ occsT s par rk pv nx (.node o ns ms ios mis),
+        oc.t.obj.type ≠ 4 ∨ (oc.t.ns.length = 0 ∧ oc.t.ms.length = 0)) := by
+    intro o ns ms ios mis h1 h2 h3 h4 ht s par rk pv nx oc hoc
+    rw [puLeafT] at ht
+    simp only [Bool.and_eq_true, Bool.or_eq_true, bne_iff_ne, ne_eq, List.isEmpty_iff, tPU] at ht
+    obtain ⟨⟨⟨⟨h0, p1⟩, p2⟩, p3⟩, p4⟩ := ht
+    rw [occsT] at hoc
+    simp only [List.mem_cons, List.mem_append] at hoc
+    rcases hoc with rfl | ((hoc | hoc) | hoc) | hoc
+    · simp only [Tree.obj, Tree.ns, Tree.ms, List.length_eq_zero_iff]
+      rcases h0 with h0 | h0
+      · exact Or.inl h0
+      · exact Or.inr h0
+    · exact h1 p1 _ _ _ _ oc hoc
+    · exact h2 p2 _ _ _ _ oc hoc
+    · exact h3 p3 _ _ _ _ oc hoc
+    · exact h4 p4 _ _ _ _ oc hoc
+  have hnil : puLeafL [] = true → ∀ s par rk pv, ∀ oc ∈ occsL s par rk pv [],
+      oc.t.obj.type ≠ 4 ∨ (oc.t.ns.length = 0 ∧ oc.t.ms.length = 0) := by
+    intro _ s par rk pv oc h; rw [occsL] at h; simp at h
+  have hcons : ∀ t ts,
+      (puLeafT t = true → ∀ s par rk pv nx, ∀ oc ∈ occsT s par rk pv nx t, oc.t.obj.type ≠ 4 ∨ (oc.t.ns.length = 0 ∧ oc.t.ms.length = 0)) →
+      (puLeafL ts = true → ∀ s par rk pv, ∀ oc ∈ occsL s par rk pv ts, oc.t.obj.type ≠ 4 ∨ (oc.t.ns.length = 0 ∧ oc.t.ms.length = 0)) →
+      (puLeafL (t :: ts) = true → ∀ s par rk pv, ∀ oc ∈ occsL s par rk pv (t :: ts),
+        oc.t.obj.type ≠ 4 ∨ (oc.t.ns.length = 0 ∧ oc.t.ms.length = 0)) := by
+    intro t ts h1 h2 hall s par rk pv oc hoc
+    rw [puLeafL, Bool.and_eq_true] at hall
+    rw [occsL] at hoc
+    rcases List.mem_append.1 hoc with h | h
+    · exact h1 hall.1 _ _ _ _ _ oc h
+    · exact h2 hall.2 _ _ _ _ oc h
+  exact ⟨tree_ind4T hnode hnil hcons, tree_ind4L hnode hnil hcons⟩
+
+theorem render_no_children_where_forbidden (t : Tree) (ht : typedT t = true) (hpu : puLeafT t = true) (h : Hdr) (ex : RObj → Extra)
+    (o : Obj) (ho : o ∈ (render t h ex).objs) :
     objClause "no-children-where-forbidden" (render t h ex) (mkAux (render t h ex)) o = true := by
   rw [clause_no_children]
   obtain ⟨oc, hoc, rfl⟩ := render_mem t h ex o ho
   have hf := typedT_facts oc.t (occs_typed.1 t ht 0 (-1) 0 (-1) (-1) oc hoc)
+  have hd := occs_puLeaf.1 t hpu 0 (-1) 0 (-1) (-1) oc hoc
   simp only [rObj, ro_type, ro_arity, ro_marity, ro_ioarity]
-  generalize oc.t.obj.type = ty at hf ⊢
-  generalize oc.t.ns.length = a at hf ⊢
-  generalize oc.t.ms.length = b at hf ⊢
+  generalize oc.t.obj.type = ty at hf hd ⊢
+  generalize oc.t.ns.length = a at hf hd ⊢
+  generalize oc.t.ms.length = b at hf hd ⊢
   generalize oc.t.ios.length = c at hf ⊢
   simp only [isMemory, isIO, isMisc, tPU, tNUMA, tMEMCACHE, tBRIDGE, tPCI, tOSDEV, tMISC, Bool.and_eq_true, Bool.or_eq_true,
     beq_iff_eq]
